@@ -500,6 +500,17 @@ fn declare(
 					.collect();
 			let mut param_types: Vec<LLVMTypeRef> = param_types?;
 
+			// A private constant of the same name must not take the symbol,
+			// or LLVM renames the function.
+			unsafe {
+				let global =
+					LLVMGetNamedGlobal(llvm.module, function_name.as_ptr());
+				if !global.is_null()
+				{
+					LLVMSetValueName(global, cstr!(""));
+				}
+			}
+
 			let function: LLVMValueRef = unsafe {
 				let function_type = LLVMFunctionType(
 					return_type,
